@@ -24,11 +24,11 @@ import (
 type verifRing struct{ owners []string }
 
 func (r verifRing) Locations(core.Digest) []string { return r.owners }
-func (r verifRing) Contains(string) bool            { return true }
-func (r verifRing) WaitForContains(string) error    { return nil }
-func (r verifRing) Members() stringset.Set          { return stringset.New(r.owners...) }
-func (r verifRing) Monitor(<-chan struct{})         {}
-func (r verifRing) Refresh()                        {}
+func (r verifRing) Contains(string) bool           { return true }
+func (r verifRing) WaitForContains(string) error   { return nil }
+func (r verifRing) Members() stringset.Set         { return stringset.New(r.owners...) }
+func (r verifRing) Monitor(<-chan struct{})        {}
+func (r verifRing) Refresh()                       {}
 
 // verifWriteBack is a model write-back manager: Find returns the pending
 // tasks, SyncExec succeeds or fails as chosen per task.
